@@ -153,6 +153,11 @@ func runRedact(c rcaseT) (out []byte, panicked bool) {
 			}
 			return a
 		}))
+	case "prefix": // a key-renaming replacer (namespacing every key); built-in time/level/msg included
+		opts = append(opts, logging.WithReplaceAttr(func(_ []string, a slog.Attr) slog.Attr {
+			a.Key = key + a.Key
+			return a
+		}))
 	}
 	l, err := logging.New(opts...)
 	if err != nil {
@@ -210,7 +215,8 @@ func runRedact(c rcaseT) (out []byte, panicked bool) {
 
 // ---- parsing the output back ----
 
-var builtin = map[string]bool{"time": true, "level": true, "msg": true}
+var builtin = map[string]bool{"time": true, "level": true, "msg": true,
+	"app_time": true, "app_level": true, "app_msg": true, "x-time": true, "x-level": true, "x-msg": true}
 
 func parseJSONLine(line []byte) ([]pairT, error) {
 	dec := json.NewDecoder(bytes.NewReader(line))
@@ -458,6 +464,8 @@ func emitRedact(id string, c rcaseT, st *hx.Stats) string {
 		l.Tok("T").Str(c.UserKey)
 	case "any":
 		l.Tok("A").Str(c.UserKey)
+	case "prefix":
+		l.Tok("X").Str(c.UserKey)
 	default:
 		l.Tok("N")
 	}
@@ -660,11 +668,13 @@ func (g *rgen) keepGroupsAlive(as []attrT, key string) {
 func genRedact(r *hx.Rand, allowLV bool) rcaseT {
 	c := rcaseT{H: hx.Pick(r, []string{"json", "text", "console", "console"})}
 	g := &rgen{r: r, h: c.H, allowLV: allowLV}
-	switch r.Intn(5) {
+	switch r.Intn(6) {
 	case 0:
 		c.User, c.UserKey = "top", "dropme"
 	case 1:
 		c.User, c.UserKey = "any", "dropme"
+	case 2:
+		c.User, c.UserKey = "prefix", hx.Pick(r, []string{"app_", "x-"})
 	}
 	meta := func(k string) *attrT {
 		if !r.Chance(1, 4) {
@@ -710,6 +720,9 @@ func fixedRedact() []rcaseT {
 	for _, h := range []string{"json", "text", "console"} {
 		// K20a: direct argument
 		out = append(out, rcaseT{H: h, Call: []attrT{pw("password", "v1x"), pw("user", "v2x")}})
+		// a key-renaming user replacer must not get to see (and rename) the sensitive keys
+		out = append(out, rcaseT{H: h, User: "prefix", UserKey: "app_", Chain: []opT{{W: []attrT{pw("token", "v1x")}}},
+			Call: []attrT{pw("password", "v2x"), pw("user", "v3x"), {IsG: true, K: "g", G: []attrT{pw("secret", "v4x")}}}})
 		// With, WithGroup, slog.Group value, nested groups
 		out = append(out, rcaseT{H: h, Chain: []opT{{W: []attrT{pw("token", "v1x")}}, {IsG: true, G: "g"}},
 			Call: []attrT{pw("secret", "v2x"), {IsG: true, K: "h", G: []attrT{pw("api_key", "v3x"), {IsG: true, K: "i", G: []attrT{pw("authorization", "v4x")}}}}}})
